@@ -5,6 +5,8 @@
 //!  toset2 <k1> <k2> <M operand of k1>  : y<{k2}> := x                (elements converted, then made distinct)
 //!  convopt <k1> <k2> <S operand of k1> : x<k1> := …; y<k2?> := x   (an option kind converts as its base kind)
 //!  optempty <k2>                       : y<k2?> := _                (the empty option)
+//!  convarg <k1> <k2> <S operand of k1> : f(p<k2>) => <k2> | p.  f(x)  (the declared kind of a parameter converts the argument)
+//!  convres <k1> <k2> <S operand of k1> : g(p<k1>) => <k2> | p.  g(x)  (the declared kind of the result converts the body's value)
 use crate::common::*;
 use crate::interp::*;
 use crate::c01::{operand_def, gen_operand, KINDS};
@@ -32,6 +34,8 @@ pub fn source(case: &str) -> String {
     "toset2" => { let (d, x) = src_form(&f, f[1], f[3]); format!("{}y<{{{}}}> := {}", d, f[2], x) }
     "convopt" => { let (d, x) = src_form(&f, f[1], f[3]); format!("{}y<{}?> := {}", d, f[2], x) }
     "optempty" => format!("y<{}?> := _", f[1]),
+    "convarg" => { let (d, x) = src_form(&f, f[1], f[3]); format!("f(p<{}>) => <{}>\n  | p.\n\n{}f({})", f[2], f[2], d, x) }
+    "convres" => { let (d, x) = src_form(&f, f[1], f[3]); format!("g(p<{}>) => <{}>\n  | p.\n\n{}g({})", f[1], f[2], d, x) }
     _ => "bad-proto".into(),
   }
 }
@@ -107,6 +111,18 @@ pub fn generate(seed: u64, thorough: bool, sink: &mut Sink) -> Vec<String> {
     cases.push(format!("toset2\t{}\t{}\tM|1|3|{}", k1, k2, els.join(" "))); sink.hit("toset:wide-kind");
   } } }
   for k2 in &kinds_all { cases.push(format!("optempty\t{}", k2)); sink.hit("conv:empty-option"); }
+  // the kinds declared by a function: a parameter converts the argument, the result kind converts the body's value
+  // (both through `Value::convert_to`).  Its own generator state: the cases that follow are the ones they were
+  {
+    let mut r2 = Rng::new(seed ^ 0xF00D);
+    for k1 in &kinds_all { for k2 in &kinds_all {
+      if *k1 == "c64" && *k2 == "string" { continue; }
+      for _ in 0..(if thorough { 4 } else { 1 }) {
+        cases.push(format!("convarg\t{}\t{}\tS|{}", k1, k2, gen_value(k1, k2, &mut r2))); sink.hit("conv:function-argument");
+        cases.push(format!("convres\t{}\t{}\tS|{}", k1, k2, gen_value(k1, k2, &mut r2))); sink.hit("conv:function-result");
+      }
+    }}
+  }
   // reshapes: every (r,c) -> (r',c') with at most 16 elements (equal and unequal counts)
   let mut shapes = vec![];
   for r in 1..=16usize { for c in 1..=16usize { if r * c <= 16 { shapes.push((r, c)); } } }
